@@ -857,7 +857,8 @@ def _norm_simple(stmts, ctx):
                         used_later = used_later or not (tot_l == 1 and tot_s == 1)
                 uses_next = _count_loads(nxt, v)
                 stores_next = v in _stored_names(nxt)
-                if not used_later and uses_next == 2 and not stores_next and isinstance(nxt, ast.If) and nxt.orelse \
+                if not any(_count_loads(s_, v) for s_ in later) and uses_next == 2 and not stores_next \
+                        and isinstance(nxt, ast.If) and nxt.orelse \
                         and _total_atom(nxt.test) and nxt.body and _count_loads(nxt.body[0], v) == 1 \
                         and _count_loads(nxt.orelse[0], v) == 1 and _count_loads(nxt.test, v) == 0 \
                         and _loaded_first(nxt.body[0], v) and _loaded_first(nxt.orelse[0], v) and ctx.get("root") is not None \
@@ -1935,7 +1936,33 @@ class SegmentAdopter(object):
                 if ka is not None and ka == kb:
                     self.adopted += 1
                     out.extend(self.copy(b_, cseg[0]) for b_ in rseg)
-                elif len(cseg) == 1 and len(rseg) == 1 and type(cseg[0]) is type(rseg[0]):
+                    continue
+                # a few statements at the end (or start) of the gap may match as a run even if the whole gap does not
+                tail_c = tail_r = head_c = head_r = 0
+                if len(cseg) + len(rseg) > 2:
+                    done_ = False
+                    for k_ in range(1, min(3, len(cseg)) + 1):
+                        for m_ in range(1, min(3, len(rseg)) + 1):
+                            if (k_, m_) == (len(cseg), len(rseg)):
+                                continue
+                            x_, y_ = self.key(cfn, cseg[-k_:], True), self.key(rfn, rseg[-m_:], False)
+                            if x_ is not None and x_ == y_:
+                                tail_c, tail_r, done_ = k_, m_, True
+                                break
+                        if done_:
+                            break
+                if tail_c:
+                    mid_c, mid_r = cseg[:-tail_c], rseg[:-tail_r]
+                    sub = SegmentAdopter.__new__(SegmentAdopter)
+                    sub.__dict__ = self.__dict__
+                    if mid_c and mid_r:
+                        out.extend(self.blocks(cfn, rfn, mid_c, mid_r))
+                    else:
+                        out.extend(mid_c)
+                    self.adopted += 1
+                    out.extend(self.copy(b_, cseg[-tail_c]) for b_ in rseg[-tail_r:])
+                    continue
+                if len(cseg) == 1 and len(rseg) == 1 and type(cseg[0]) is type(rseg[0]):
                     out.append(self.inside(cfn, rfn, cseg[0], rseg[0]))
                 else:
                     # compound statements with the same header are paired (in order) and looked into
